@@ -1,7 +1,6 @@
 """Binding of specs/FaLatent.tla to ISVMachine / JFAMachine: configuration generation, TLC runs,
 replay of exported edges through the public block updates and `enroll`, and the independent
 NumPy evaluators of the enrolment objective J and of its mode (DESIGN.md Appendix D)."""
-import itertools
 from fractions import Fraction as F
 
 import numpy as np
